@@ -80,7 +80,7 @@ _RE_STATES = re.compile(
     r"(\d+) states generated, (\d+) distinct states found, (\d+) states left on queue"
 )
 _RE_DEPTH = re.compile(r"The depth of the complete state graph search is (\d+)")
-_RE_COV = re.compile(r"^<(\w+) line (\d+), col \d+ to line \d+, col \d+ of module (\w+)>: (\d+):(\d+)", re.M)
+_RE_COV = re.compile(r"^<(\w+) line (\d+), col \d+ to line \d+, col \d+ of module (\w+)(?: \([\d ]+\))?>: (\d+):(\d+)", re.M)
 
 
 def run_tlc(
@@ -406,7 +406,7 @@ class Check:
     def note(self, s: str):
         self.notes.append(s)
 
-    def finish(self) -> int:
+    def finish(self, write_evidence: bool = True) -> int:
         known = [k for k in load_known_findings() if k["property"] == self.prop]
         open_known = [k for k in known if k.get("status") == "open"]
         unlisted, listed = [], {}
@@ -443,7 +443,8 @@ class Check:
         for key, s in seen.items():
             print(f"VIOLATION property={self.prop} replay={s['path']}")
             print(f"  key={key} occurrences={s['count']}: {s['v']['description'][:600]}")
-        self.write_evidence(len(unlisted), len(self.violations) - len(unlisted))
+        if write_evidence:
+            self.write_evidence(len(unlisted), len(self.violations) - len(unlisted))
         return 1 if unlisted else 0
 
     def write_evidence(self, n_viol: int, n_known: int):
@@ -498,7 +499,24 @@ def _shorten(t, maxev=8):
         return str(t)[:2000]
 
 
-def main_wrapper(fn, prop: str):
+def replay_file(chk: "Check", path: str, replay_fn=None) -> int:
+    """Re-run a recorded violation against the *current* tree.  If the check module
+    provides replay(chk, data) it regenerates the execution from its recipe; otherwise
+    the recorded trace is re-validated against the current trace spec."""
+    data = json.loads(Path(path).read_text())
+    rp = data["replay"]
+    if replay_fn is not None:
+        replay_fn(chk, data)
+    elif rp.get("kind") == "rejected_trace":
+        chk.tv(rp["trace_spec"], [rp["trace"]], tag="replay")
+    elif rp.get("kind") == "tlc_counterexample":
+        chk.mc(rp["module"], rp["cfg"], tag="replay")
+    else:
+        raise MachineryError("this replay file carries no re-runnable recipe")
+    return chk.finish(write_evidence=False)
+
+
+def main_wrapper(fn, prop: str, replay_fn=None):
     """Run fn(check) with the exit protocol."""
     import argparse
 
@@ -512,6 +530,10 @@ def main_wrapper(fn, prop: str):
         tier = "quick"
     chk = Check(prop, tier, seed)
     try:
+        if args.replay:
+            rc = replay_file(chk, args.replay, replay_fn)
+            print(f"[{prop}] replay exit={rc}")
+            return rc
         fn(chk)
         rc = chk.finish()
     except MachineryError as ex:
